@@ -51,6 +51,7 @@ static int sm_search(sm_spec_t *sp, int maxdepth) {
         if (maxdepth > 0 && d >= maxdepth) continue;
         if (d >= 3000) { complete = 0; continue; }
         if ((idx & 0xff) == 0 && vc_deadline_hit()) { complete = 0; break; }
+        if (vc_nviol > 400) { complete = 0; break; }   /* enough counterexamples: do not explore the damaged state space to its end */
         char *k = key; k += sprintf(k, "%s", sp->prefix);
         for (int i = 0; i < d; i++) k += sprintf(k, "%d,", hist[i]);
         for (int op = 0; op < sp->nops; op++) {
@@ -66,7 +67,10 @@ static int sm_search(sm_spec_t *sp, int maxdepth) {
                     sp->transition(hist, d, op, ckey2, 0); sm_replays++;
                     if (strcmp(ckey, ckey2)) { printf("NOTE\treplay divergence on %s\n", key); vc_stat_add("replay_divergence", 1); }
                 }
-                if (b.nnodes <= 3 || (b.nnodes % 50000) == 0) vc_sample("history %s -> state %s", key, ckey);
+                if (b.nnodes <= 3 || (b.nnodes % 50000) == 0) {   /* a readable rendering of the history next to its replay key */
+                    char txt[600], *q = txt; for (int i = 0; i < d && q - txt < 500; i++) q += snprintf(q, 60, "%s#%d ", sp->label(hist[i]), hist[i]); snprintf(q, 60, "%s#%d", sp->label(op), op);
+                    vc_sample("history [%s] (replay key %s) -> state %s", txt, strlen(key) > 120 ? "..." : key, ckey);
+                }
             }
             vc_case_end();
         }
